@@ -4,7 +4,6 @@ use crate::{
   support::{export_and_insert, load_class_from_module},
   StdResult,
 };
-use hashbrown::hash_map::Iter;
 use laythe_core::{
   constants::{INDEX_GET, INDEX_SET}, hooks::{GcHooks, Hooks}, if_let_obj, list, managed::{DebugHeap, DebugWrap, Trace}, module::Module, object::{Enumerate, Enumerator, LyNative, LyStr, Map, Native, NativeMetaBuilder, ObjectKind}, signature::{Arity, ParameterBuilder, ParameterKind}, to_obj_kind, utils::use_sentinel_nan, val, value::{Value, VALUE_NIL}, Call, LyError, ObjRef, Ref
 };
@@ -318,17 +317,21 @@ impl LyNative for MapIter {
 #[derive(Debug)]
 struct MapIterator {
   map: ObjRef<Map<Value, Value>>,
-  iter: Iter<'static, Value, Value>,
+  entries: Vec<(Value, Value)>,
+  index: usize,
   current: Value,
 }
 
 impl MapIterator {
   fn new(map: ObjRef<Map<Value, Value>>) -> Self {
-    let iter = unsafe { map.data_static().iter() };
+    // iterate a snapshot, an iterator into the table itself does not
+    // survive the map being inserted into or removed from
+    let entries = map.iter().map(|(key, value)| (*key, *value)).collect();
 
     Self {
       map,
-      iter,
+      entries,
+      index: 0,
       current: VALUE_NIL,
     }
   }
@@ -344,9 +347,10 @@ impl Enumerate for MapIterator {
   }
 
   fn next(&mut self, hooks: &mut Hooks) -> Call {
-    match self.iter.next() {
+    match self.entries.get(self.index) {
       Some(next) => {
-        let dawg = &[*next.0, *next.1];
+        self.index += 1;
+        let dawg = &[next.0, next.1];
         let bro = list!(dawg);
         self.current = val!(hooks.manage_obj(bro));
         Call::Ok(val!(true))
@@ -359,7 +363,7 @@ impl Enumerate for MapIterator {
   }
 
   fn size_hint(&self) -> Option<usize> {
-    Some(self.map.len())
+    Some(self.entries.len())
   }
 
   fn as_debug(&self) -> &dyn DebugHeap {
@@ -370,10 +374,18 @@ impl Enumerate for MapIterator {
 impl Trace for MapIterator {
   fn trace(&self) {
     self.map.trace();
+    self.entries.iter().for_each(|(key, value)| {
+      key.trace();
+      value.trace();
+    });
   }
 
   fn trace_debug(&self, stdout: &mut dyn Write) {
     self.map.trace_debug(stdout);
+    self.entries.iter().for_each(|(key, value)| {
+      key.trace_debug(stdout);
+      value.trace_debug(stdout);
+    });
   }
 }
 
